@@ -214,11 +214,11 @@ WClose(p) ==
     /\ IF AtomicWrite
        THEN exists' = TRUE /\ cells' = loc[p].tmp                           \* os.replace(tmp, cache file)
        ELSE UNCHANGED <<exists, cells>>
-    /\ IF AtomicWrite /\ UniqueLibs /\ Codegen
-       THEN /\ Set(p, [Idle EXCEPT !.pc = "w_cleanup",                 \* remember which libraries the replaced cache file pointed to
-                                   !.old = IF exists /\ Complete(cells) /\ cells[1].b # MyBundle(p) THEN cells[1].b ELSE NoB])
-            /\ Ev(p, "w_close", <<>>)
-       ELSE Finish(p, "miss", OptOf(p), <<OptOf(p)>>)
+    /\ LET old == IF exists /\ Complete(cells) /\ cells[1].b # MyBundle(p) THEN cells[1].b ELSE NoB
+       IN  IF AtomicWrite /\ UniqueLibs /\ Codegen /\ old # NoB
+           THEN /\ Set(p, [Idle EXCEPT !.pc = "w_cleanup", !.old = old])   \* remember which libraries the replaced cache file pointed to
+                /\ Ev(p, "w_close", <<>>)
+           ELSE Finish(p, "miss", OptOf(p), <<OptOf(p)>>)
     /\ UNCHANGED <<libs, gen, crashes>>
 
 WCleanup(p) ==   \* remove the libraries that the cache file we replaced pointed to
